@@ -665,7 +665,34 @@ def gen_w1_seq(batch, res, sb, watch, use_fork):
             buf, m = _fresh(cap=cap, fill=rng.random() < 0.6)
             how = "cap"
         hist = {}
+        r_init = random.Random("w1seq-reinit/%d/%d" % (seed, k))
         for i, (op, arg) in enumerate(_seq_ops(rng, cap, steps)):
+            if r_init.random() < 0.04:
+                # __init__ called again on the live object (legal Python): a usable argument gives a fresh buffer, an
+                # unusable one is rejected and leaves the object exactly as it was — position, limit and storage
+                kind = r_init.choice(["bad", "bad", "cap", "data"])
+                local.count("w1_reinit_calls")
+                try:
+                    if kind == "bad":
+                        buf.__init__(capacity=r_init.choice([-1, -2, -(1 << 31), -I63]))
+                    elif kind == "cap":
+                        c2 = r_init.choice([0, 1, 8, 33])
+                        buf.__init__(capacity=c2)
+                        m.mem, m.pos = [None] * c2, 0
+                    else:
+                        d2 = bytes(r_init.randrange(256) for _ in range(r_init.choice([0, 1, 9, 40])))
+                        buf.__init__(data=d2)
+                        m.mem, m.pos = list(d2), 0
+                    if kind == "bad":
+                        chk.fail("buffer:reinit:unusable-argument-accepted", "Buffer.__init__(capacity<0) on a live object returned")
+                        break
+                    chk.trace.append("__init__(%s) again: fresh buffer" % kind)
+                except (ValueError, OverflowError, MemoryError) as exc:
+                    chk.trace.append("__init__(%s) again: rejected %r" % (kind, exc))
+                    local.count("w1_reinit_rejected")
+                    chk.check_state(buf, m, "after-rejected-reinit")
+                    chk.usable(buf, m)
+                    chk.check_contents(buf, m)
             out = chk.step(buf, m, op, arg)
             hist[out] = hist.get(out, 0) + 1
             if out == "raised" and rng.random() < 0.5:
